@@ -1,13 +1,14 @@
 #!/bin/bash
 # tools/regress_seeds.sh [jobs]  — every seeded mutation against its property's quick check (fresh worktree each); prints one line per seed.
 J=${1:-3}
-cd /verif
+cd "$(dirname "$0")/.."
+export VROOT=$(pwd)
 run_one() {
   d=$1; name=$(basename $d); prop=$(python3 -c "import json;print(json.load(open('$d/meta.json'))['property'])")
   WT=$(mktemp -d /tmp/wt-reg-XXXXXX)
   git -C /repo worktree add --detach "$WT" HEAD >/dev/null 2>&1
   if git -C "$WT" apply "$d/patch.diff" 2>/dev/null; then
-    OUT=$(VERIF_REPO="$WT" VERIF_SEED=${VERIF_SEED:-0} timeout 1500 ./check $prop 2>/dev/null); rc=$?
+    OUT=$(VERIF_REPO="$WT" VERIF_SEED=${VERIF_SEED:-0} timeout 1500 $VROOT/check $prop 2>/dev/null); rc=$?
     kind=$(echo "$OUT" | grep -c 'VIOLATION.*no-failing-input-found')
     nv=$(echo "$OUT" | grep -c '^VIOLATION')
     echo "$name prop=$prop rc=$rc violations=$nv no_failing_input=$kind"
@@ -17,4 +18,4 @@ run_one() {
   git -C /repo worktree remove --force "$WT" >/dev/null 2>&1; rm -rf "$WT"
 }
 export -f run_one
-ls -d /verif/seeded/*/ | xargs -P $J -I{} bash -c 'run_one {}'
+ls -d $VROOT/seeded/*/ | xargs -P $J -I{} bash -c 'run_one {}'
